@@ -957,8 +957,10 @@ asn1c_lang_C_type_CHOICE(arg_t *arg) {
 	OUT("typedef %s {\n", c_name(arg).presence_enum);
 	INDENTED(
 		int skipComma = 1;
+		int position = 0;
         OUT("%s,\t/* No components present */\n", c_presence_name(arg, 0));
 		TQ_FOR(v, &(expr->members), next) {
+			position++;
 			if(skipComma) skipComma = 0;
 			else if (v->expr_type == A1TC_EXTENSIBLE && !TQ_NEXT(v, next)) OUT("\n");
 			else OUT(",\n");
@@ -968,6 +970,14 @@ asn1c_lang_C_type_CHOICE(arg_t *arg) {
 				continue;
 			}
             OUT("%s", c_presence_name(arg, v));
+			if(v->_mark & TM_SKIPinUNION) {
+				/*
+				 * Another object of the set has this type already:
+				 * they share the member of the union, but each has
+				 * its own position.
+				 */
+				OUT("__%d", position);
+			}
 		}
 		OUT("\n");
 	);
